@@ -76,8 +76,10 @@ class World:
     pass
 
 
-def enumerate_scripts(call):
-    """Run call(rng) under every answer script; yields (script, result, rng). The decision tree is discovered."""
+def enumerate_scripts(call, max_draws=None):
+    """Run call(rng) under every answer script; yields (script, result, rng). The decision tree is discovered.
+    max_draws bounds the number of draws per call (a pick by rejection sampling - draw again while the slot drawn is
+    empty - has an infinite tree: its branches are followed max_draws draws deep)."""
     stack = [()]
     while stack:
         script = stack.pop()
@@ -85,6 +87,8 @@ def enumerate_scripts(call):
         try:
             res = call(rng)
         except ScriptExhausted:
+            if max_draws is not None and len(script) >= max_draws:
+                continue
             n = rng.asked[-1]
             for v in range(n - 1, -1, -1):
                 stack.append(script + (v,))
@@ -230,7 +234,7 @@ class Harness:
                 def pick(rng):
                     w.model.random = rng
                     return env.get_random_agent(*targs, **kw)
-                for script, res, rng in enumerate_scripts(pick):
+                for script, res, rng in enumerate_scripts(pick, max_draws=3):
                     w.queries += 1
                     if rng.foreign or not rng.consumed():
                         raise Violation(f'{what}: get_random_agent drew from the model generator in an uncontrolled '
@@ -425,7 +429,7 @@ def special_population_case(case):
             def pick(rng):
                 m.random = rng
                 return env.get_random_agent(*targs, **kw)
-            for script, res, rng in enumerate_scripts(pick):
+            for script, res, rng in enumerate_scripts(pick, max_draws=3):
                 n += 1
                 if (res is None) != (not exp) or (res is not None and not any(res is e for e in exp)):
                     raise Violation(f'{what}: get_random_agent returned an agent outside the filter',
@@ -515,9 +519,9 @@ def shrunk_case(case):
     agents = []
     for i in range(peak):
         a = Core.Agent(f's{i}', m, tag=i % 2)
-        if i % 3 == 0:
+        if i % 3 == 1:
             a.add_component(X(a, m))
-        if i % 7 == 0:
+        if i % 4 == 1:
             a.add_component(Y(a, m))
         agents.append(a)
         env.add_agent(a)
@@ -544,7 +548,7 @@ def shrunk_case(case):
             def pick(rng):
                 m.random = rng
                 return env.get_random_agent(*targs, **kw)
-            for script, r, rng in enumerate_scripts(pick):
+            for script, r, rng in enumerate_scripts(pick, max_draws=3):
                 n += 1
                 if (r is None) != (not exp) or (r is not None and not any(r is e for e in exp)):
                     raise Violation(f'{len(res)} survivors of {peak}: template {list(tmpl)} tag {tag}: get_random_agent '
@@ -730,6 +734,16 @@ def run(ctx):
             ctx.report(case, v)
             return
     ctx.leg('special_population', cases=6)
+    for peak, keep in ((90, 12), (300, 20)) if not ctx.small else ((90, 12),):
+        for leave in ('front_to_back', 'back_to_front'):
+            case = {'leg': 'shrunk', 'peak': peak, 'keep': keep, 'leave': leave}
+            ctx.traces += 1
+            try:
+                ctx.transitions += hbfs._guard(shrunk_case, case)
+            except Violation as v:
+                ctx.report(case, v)
+                return
+    ctx.leg('shrunk', note='populations that peaked at 90 / 300 and shrank to a dozen: every pick enumerated')
     for n in ((130,) if ctx.small else (1300, 12000) if ctx.tier == 'quick' else (1300, 12000, 70000)):
         case = {'leg': 'crowd', 'n': n, 'seed': ctx.seed}
         ctx.traces += 1
@@ -741,16 +755,6 @@ def run(ctx):
             return
     ctx.leg('crowd', note='1300 and 12000 (thorough also 70000) agents, 9 templates x 5 tag filters, seeded picks each '
                           '(membership only)')
-    for peak, keep in ((90, 12), (300, 20)) if not ctx.small else ((90, 12),):
-        for leave in ('front_to_back', 'back_to_front'):
-            case = {'leg': 'shrunk', 'peak': peak, 'keep': keep, 'leave': leave}
-            ctx.traces += 1
-            try:
-                ctx.transitions += hbfs._guard(shrunk_case, case)
-            except Violation as v:
-                ctx.report(case, v)
-                return
-    ctx.leg('shrunk', note='populations that peaked at 90 / 300 and shrank to a dozen: every pick enumerated')
     for p in POOLS:
         case = {'leg': 'in_system', 'pool': p}
         ctx.traces += 1
